@@ -795,6 +795,28 @@ feature cv02 {
 }
 
 #[test]
+fn remap_name_ids_keeps_reserved_elided_fallback_id() {
+    use write_fonts::types::NameId;
+
+    let mut compilation = compile_fea(
+        "\
+table name {
+    nameid 8 \"Regular\";
+} name;
+table STAT {
+    ElidedFallbackNameID 8;
+    DesignAxis wght 0 { name \"Weight\"; };
+} STAT;
+",
+        "remap_reserved_elided_fallback",
+    );
+    compilation.remap_name_ids(512);
+    let stat = compilation.stat.as_ref().unwrap();
+    assert_eq!(stat.elided_fallback_name_id, Some(NameId::new(8)));
+    assert_eq!(stat.design_axes[0].axis_name_id, NameId::new(512));
+}
+
+#[test]
 fn mark_class_used_in_glyph_class_def() {
     // Mark classes should be accepted wherever glyph classes are expected,
     // including inside glyph class definitions.
